@@ -38,9 +38,30 @@ Proof.
   - intros I. exists (a, b). split; auto. simpl. now rewrite !Nat.eqb_refl.
 Qed.
 
+Lemma existsb_ext {X} (g h : X -> bool) l : (forall x, g x = h x) -> existsb g l = existsb h l.
+Proof. intros E. induction l; simpl; auto. now rewrite E, IHl. Qed.
+
+Lemma reach_unfold M k a b :
+  reach M k a b = edge M a b ||
+    match k with
+    | O => false
+    | S k' => existsb (fun e => (fst e =? a) && reach M k' (snd e) b) (m_hb M)
+    end.
+Proof.
+  destruct k; simpl; destruct (edge M a b); auto.
+Qed.
+
+Lemma racy_unfold M p :
+  racy M p = conflict (fst p) (snd p) && negb (hb M (a_step (fst p)) (a_step (snd p)))
+             && negb (hb M (a_step (snd p)) (a_step (fst p))).
+Proof.
+  unfold racy. destruct (conflict (fst p) (snd p)); simpl; auto.
+  destruct (hb M (a_step (fst p)) (a_step (snd p))); simpl; auto.
+Qed.
+
 Lemma reach_sound M k : forall a b, reach M k a b = true -> HB M a b.
 Proof.
-  induction k as [|k IH]; intros a b H; simpl in H; apply orb_true_iff in H; destruct H as [H|H];
+  induction k as [|k IH]; intros a b H; rewrite reach_unfold in H; apply orb_true_iff in H; destruct H as [H|H];
     try (apply edge_spec in H; now constructor); try discriminate.
   apply existsb_exists in H. destruct H as ([x y] & I & E). simpl in E. apply andb_true_iff in E.
   destruct E as [E1 E2]. apply Nat.eqb_eq in E1. subst. eapply HB_step; eauto.
@@ -55,7 +76,7 @@ Qed.
 
 Lemma reach_complete M : WfHB M -> forall k a b, HB M a b -> b - a <= S k -> reach M k a b = true.
 Proof.
-  intros W. induction k as [|k IH]; intros a b H L; simpl; apply orb_true_iff.
+  intros W. induction k as [|k IH]; intros a b H L; rewrite reach_unfold; apply orb_true_iff.
   - destruct H as [a b I|a c b I H].
     + left. now apply edge_spec.
     + exfalso. apply W in I. apply (HB_lt M _ _ W) in H. lia.
@@ -107,14 +128,14 @@ Proof.
     destruct (hb M (a_step y) (a_step x)) eqn:H2; [right; now apply hb_spec|].
     exfalso. assert (I : In (x, y) (racy_pairs M)).
     { unfold racy_pairs. apply filter_In. split; [now apply in_prod|].
-      unfold racy; simpl. rewrite H1, H2. apply conflict_spec in C. now rewrite C. }
+      rewrite racy_unfold; simpl. rewrite H1, H2. apply conflict_spec in C. now rewrite C. }
     destruct (racy_pairs M); [destruct I|discriminate].
   - intros [W H]. apply andb_true_iff. split; [now apply wf_hb_spec|].
     destruct (racy_pairs M) as [|[x y] l] eqn:E; auto. exfalso.
     assert (I : In (x, y) (racy_pairs M)) by (rewrite E; now left).
     unfold racy_pairs in I. apply filter_In in I. destruct I as [I R].
     apply in_prod_iff in I. destruct I as [Ix Iy].
-    unfold racy in R; simpl in R. rewrite !andb_true_iff, !negb_true_iff in R. destruct R as [[C H1] H2].
+    rewrite racy_unfold in R; simpl in R. rewrite !andb_true_iff, !negb_true_iff in R. destruct R as [[C H1] H2].
     apply conflict_spec in C. destruct (H x y Ix Iy C) as [O|O]; apply hb_spec in O; auto; congruence.
 Qed.
 
@@ -125,9 +146,38 @@ Lemma racy_pairs_sound M x y :
 Proof.
   intros W I. unfold racy_pairs in I. apply filter_In in I. destruct I as [I R].
   apply in_prod_iff in I. destruct I as [Ix Iy].
-  unfold racy in R; simpl in R. rewrite !andb_true_iff, !negb_true_iff in R. destruct R as [[C H1] H2].
+  rewrite racy_unfold in R; simpl in R. rewrite !andb_true_iff, !negb_true_iff in R. destruct R as [[C H1] H2].
   split; [|split; [|split]]; auto. { now apply conflict_spec. }
   intros [O|O]; apply hb_spec in O; auto; congruence.
+Qed.
+
+(** boolean membership of a pair of accesses (so that witnesses are checked by computation) *)
+Definition mode_eqb (m1 m2 : mode) : bool := match m1, m2 with Rd, Rd | Wr, Wr => true | _, _ => false end.
+Definition lock_eqb (l1 l2 : option nat) : bool :=
+  match l1, l2 with Some a, Some b => a =? b | None, None => true | _, _ => false end.
+Definition acc_eqb (x y : access) : bool :=
+  (a_step x =? a_step y) && (a_obj x =? a_obj y) && mode_eqb (a_mode x) (a_mode y)
+  && lock_eqb (a_lock x) (a_lock y) && Bool.eqb (a_atomic x) (a_atomic y).
+
+Lemma acc_eqb_eq x y : acc_eqb x y = true -> x = y.
+Proof.
+  destruct x as [s1 o1 m1 l1 t1], y as [s2 o2 m2 l2 t2]. unfold acc_eqb; simpl.
+  rewrite !andb_true_iff. intros ((((H1 & H2) & H3) & H4) & H5).
+  apply Nat.eqb_eq in H1, H2. apply Bool.eqb_prop in H5. subst.
+  assert (m1 = m2) by (destruct m1, m2; auto; discriminate). subst.
+  assert (l1 = l2).
+  { destruct l1, l2; simpl in H4; try discriminate; auto. apply Nat.eqb_eq in H4. now subst. }
+  now subst.
+Qed.
+
+Definition pair_mem (p : access * access) (l : list (access * access)) : bool :=
+  existsb (fun q => if acc_eqb (fst p) (fst q) then acc_eqb (snd p) (snd q) else false) l.
+
+Lemma pair_mem_In p l : pair_mem p l = true -> In p l.
+Proof.
+  unfold pair_mem. intros H. apply existsb_exists in H. destruct H as ([q1 q2] & I & E). simpl in E.
+  destruct (acc_eqb (fst p) q1) eqn:E1; try discriminate.
+  apply acc_eqb_eq in E1, E. destruct p; simpl in *; subst. exact I.
 Qed.
 
 (** ** the analyzer's matrix *)
@@ -146,7 +196,7 @@ Theorem analyzer_report_writer_races :
   forall report_coverage report_paths on_demand,
     let M := analyzer true report_coverage report_paths on_demand false in
     race_free M = false /\ In writer_witness (racy_pairs M).
-Proof. intros [] [] []; vm_compute; (split; [reflexivity|]); tauto. Qed.
+Proof. intros [] [] []; (split; [vm_compute; reflexivity|apply pair_mem_In; vm_compute; reflexivity]). Qed.
 
 (** the file is not ordered before the return either: "report files are complete when the analysis returns" fails *)
 Definition file_witness : access * access :=
@@ -155,7 +205,7 @@ Definition file_witness : access * access :=
 Theorem analyzer_report_file_incomplete :
   forall report_coverage report_paths on_demand,
     In file_witness (racy_pairs (analyzer true report_coverage report_paths on_demand false)).
-Proof. intros [] [] []; vm_compute; tauto. Qed.
+Proof. intros [] [] []; apply pair_mem_In; vm_compute; reflexivity. Qed.
 
 (** joining the writer before STEP 3 (the proposed fix) removes every conflict *)
 Theorem analyzer_fixed_race_free :
